@@ -10,6 +10,7 @@ Variables lower upper : str -> str.
 Variable parse_tree : mapper -> tz -> res (option T * mapper * tz).
 Variable set_label : T -> option str -> T.
 Variable add_comments : T -> list str -> T.
+Variables va vk : bool.
 
 (* the list loop is a function of what the iterator loop does *)
 Lemma newick_loops_agree : forall fuel m z acc,
@@ -29,7 +30,7 @@ Proof.
   - rewrite app_nil_r. reflexivity.
 Qed.
 
-Notation L := (treelist_read T lower upper parse_tree set_label add_comments Newick).
+Notation L := (treelist_read T lower upper parse_tree set_label add_comments va Newick).
 Notation Y := (yield_from_files T lower upper parse_tree set_label add_comments Newick).
 
 Lemma newick_list_of_yield : forall ns0 d,
@@ -47,9 +48,9 @@ Qed.
 
 (* Tree.get and TreeList.get with offsets are selections from the list route's result *)
 Lemma newick_tree_get : forall c k d,
-  tree_get T lower upper parse_tree set_label add_comments Newick c k d =
+  tree_get T lower upper parse_tree set_label add_comments va vk Newick c k d =
   match L [] d with
-  | Ok (ts, _) => select_tree T set_label [ts] (match c with Some c => c | None => 0 end)
+  | Ok (ts, _) => select_tree T set_label vk [ts] (match c with Some c => c | None => 0 end)
                               (match k with Some k => k | None => 0 end)
   | Err e => Err e
   | OutOfFuel => OutOfFuel
@@ -60,7 +61,7 @@ Proof.
 Qed.
 
 Lemma newick_list_off : forall c k d, (c <> None \/ k <> None) ->
-  treelist_get_off T lower upper parse_tree set_label add_comments Newick c k d =
+  treelist_get_off T lower upper parse_tree set_label add_comments va Newick c k d =
   match L [] d with
   | Ok (ts, _) => select_offsets T [ts] (match c with Some c => c | None => 0 end) k
   | Err e => Err e
@@ -87,7 +88,7 @@ Qed.
 (* selection from a single collection *)
 Lemma select_tree_single : forall (ts : list T) (k : nat) t,
   nth_error ts k = Some t ->
-  select_tree T set_label [ts] 0 (Z.of_nat k) = Ok (set_label t None).
+  select_tree T set_label vk [ts] 0 (Z.of_nat k) = Ok (got_label T set_label vk t).
 Proof.
   intros ts k t H. unfold select_tree. simpl.
   assert (Hlen : (k < length ts)%nat) by (apply nth_error_Some; congruence).
@@ -100,7 +101,7 @@ Qed.
 
 Lemma select_tree_single_out : forall (ts : list T) (k : Z),
   ts <> [] -> Z.of_nat (length ts) <= k ->
-  select_tree T set_label [ts] 0 k = Err IndexErr.
+  select_tree T set_label vk [ts] 0 k = Err IndexErr.
 Proof.
   intros ts k Hne Hk. unfold select_tree. simpl.
   destruct ts as [|x r]; [congruence|]. simpl is_nil. cbv iota.
@@ -112,13 +113,13 @@ Proof.
   rewrite E1, E2. reflexivity.
 Qed.
 
-Lemma select_tree_single_empty : forall k, select_tree T set_label [[]] 0 k = Err ValueErr.
+Lemma select_tree_single_empty : forall k, select_tree T set_label vk [[]] 0 k = Err ValueErr.
 Proof. reflexivity. Qed.
 
 (* negative offsets count from the end, as Python does *)
 Lemma select_tree_single_neg : forall (ts : list T) (j : nat) t,
   (0 < j <= length ts)%nat -> nth_error ts (length ts - j) = Some t ->
-  select_tree T set_label [ts] 0 (- Z.of_nat j) = Ok (set_label t None).
+  select_tree T set_label vk [ts] 0 (- Z.of_nat j) = Ok (got_label T set_label vk t).
 Proof.
   intros ts j t Hj H. unfold select_tree. simpl.
   destruct ts as [|x r]; [simpl in Hj; lia|]. simpl is_nil. cbv iota.
@@ -147,18 +148,18 @@ Theorem routes_agree_newick_l : forall (ns0 : list str) (d : doc),
      label keyword assigned), IndexError beyond the end, ValueError for an empty source *)
   (forall ts ns, L [] d = Ok (ts, ns) ->
      (forall c k t, (c = None \/ c = Some 0) -> nth_error ts k = Some t ->
-        tree_get T lower upper parse_tree set_label add_comments Newick c (Some (Z.of_nat k)) d
-        = Ok (set_label t None))
+        tree_get T lower upper parse_tree set_label add_comments va vk Newick c (Some (Z.of_nat k)) d
+        = Ok (got_label T set_label vk t))
      /\ (forall c t, (c = None \/ c = Some 0) -> nth_error ts 0 = Some t ->
-        tree_get T lower upper parse_tree set_label add_comments Newick c None d = Ok (set_label t None))
+        tree_get T lower upper parse_tree set_label add_comments va vk Newick c None d = Ok (got_label T set_label vk t))
      /\ (forall c k, (c = None \/ c = Some 0) -> ts <> [] -> Z.of_nat (length ts) <= k ->
-        tree_get T lower upper parse_tree set_label add_comments Newick c (Some k) d = Err IndexErr)
+        tree_get T lower upper parse_tree set_label add_comments va vk Newick c (Some k) d = Err IndexErr)
      /\ (forall c k, (c = None \/ c = Some 0) -> ts = [] ->
-        tree_get T lower upper parse_tree set_label add_comments Newick c k d = Err ValueErr))
+        tree_get T lower upper parse_tree set_label add_comments va vk Newick c k d = Err ValueErr))
   /\
   (* and Tree.get fails like the list route when that fails *)
   (forall e c k, L [] d = Err e ->
-     tree_get T lower upper parse_tree set_label add_comments Newick c k d = Err e).
+     tree_get T lower upper parse_tree set_label add_comments va vk Newick c k d = Err e).
 Proof.
   intros ns0 d. split; [|split; [|split]].
   - intros out r HY. rewrite newick_list_of_yield, HY. destruct r; reflexivity.
